@@ -670,4 +670,357 @@ theorem KInv.exec {s : TSys} (hi : KInv s) (sched : List TChoice) : KInv (texec 
   | nil => exact hi
   | cons c cs ih => exact ih (hi.step c)
 
+/-! ### the tables after `disconnect()` do not depend on how the writer was interleaved -/
+
+theorem appendResults_append (t : List (Nat × Nat × Nat)) (a b : List (Nat × Nat)) :
+    appendResults t (a ++ b) = appendResults (appendResults t a) b := by
+  induction a generalizing t with
+  | nil => rfl
+  | cons x xs ih => obtain ⟨r, p⟩ := x; simp [appendResults, ih]
+
+def Tables.noRes (t : Tables) : Tables := { t with scanResult := [] }
+
+/-- a statement other than the INSERT into scan_result neither reads nor writes that table -/
+theorem run_noRes (t : Tables) (st : Stmt) (hst : ∀ r p, st ≠ .insScanResult r p) :
+    t.run st = (t.noRes.run st).map fun x => ({ x.1 with scanResult := t.scanResult }, x.2) := by
+  cases st with
+  | insScanResult r p => exact absurd rfl (hst r p)
+  | insRunMeta => simp [Tables.run, Tables.noRes]
+  | insAddress url =>
+    simp only [Tables.run, Tables.noRes, Tables.addrId, Tables.addressIds]
+    cases (t.address.find? fun x => x.2 == url) <;> simp
+  | insScanRun url m =>
+    simp only [Tables.run, Tables.noRes, Tables.addrId, Tables.scanRunIds]
+    by_cases h : t.runMeta.contains m = true
+    · simp only [if_pos h]; first | rfl | simp_all
+    · simp only [if_neg h]; first | rfl | simp_all
+  | insDiscoveryRun m =>
+    simp only [Tables.run, Tables.noRes, Tables.discoveryRunIds]
+    by_cases h : t.runMeta.contains m = true
+    · simp only [if_pos h]; first | rfl | simp_all
+    · simp only [if_neg h]; first | rfl | simp_all
+  | insDiscoveryResult url run =>
+    cases h1 : t.addrId url with
+    | none =>
+      have h1' : t.noRes.addrId url = none := h1
+      simp [Tables.run, h1, h1']
+    | some a =>
+      have h1' : t.noRes.addrId url = some a := h1
+      cases h2 : t.discoveryRunIds.contains run with
+      | false =>
+        have h2' : t.noRes.discoveryRunIds.contains run = false := h2
+        have L : t.run (.insDiscoveryResult url run) = none := by simp only [Tables.run, h1, h2]; simp
+        have R : t.noRes.run (.insDiscoveryResult url run) = none := by simp only [Tables.run, h1', h2']; simp
+        rw [L, R]; rfl
+      | true =>
+        have h2' : t.noRes.discoveryRunIds.contains run = true := h2
+        have L : t.run (.insDiscoveryResult url run) = some ({ t with discoveryResult := t.discoveryResult ++
+            [(nextId t.discoveryResultIds, run, a)] }, nextId t.discoveryResultIds) := by
+          simp only [Tables.run, h1, h2, if_true]
+        have R : t.noRes.run (.insDiscoveryResult url run) = some ({ t.noRes with discoveryResult := t.noRes.discoveryResult ++
+            [(nextId t.noRes.discoveryResultIds, run, a)] }, nextId t.noRes.discoveryResultIds) := by
+          simp only [Tables.run, h1', h2', if_true]
+        rw [L, R]
+        simp [Tables.noRes, Tables.discoveryResultIds]
+  | insSessionTransition run d =>
+    cases run with
+    | none => simp [Tables.run]
+    | some r =>
+      cases h2 : t.scanRunIds.contains r with
+      | false =>
+        have h2' : t.noRes.scanRunIds.contains r = false := h2
+        have L : t.run (.insSessionTransition (some r) d) = none := by simp only [Tables.run, h2]; simp
+        have R : t.noRes.run (.insSessionTransition (some r) d) = none := by simp only [Tables.run, h2']; simp
+        rw [L, R]; rfl
+      | true =>
+        have h2' : t.noRes.scanRunIds.contains r = true := h2
+        have L : t.run (.insSessionTransition (some r) d) =
+            some ({ t with sessionTransition := t.sessionTransition ++ [(r, d)] }, 0) := by
+          simp only [Tables.run, h2, if_true]
+        have R : t.noRes.run (.insSessionTransition (some r) d) =
+            some ({ t.noRes with sessionTransition := t.noRes.sessionTransition ++ [(r, d)] }, 0) := by
+          simp only [Tables.run, h2', if_true]
+        rw [L, R]
+        simp [Tables.noRes]
+  | update => simp [Tables.run, Tables.noRes]
+
+theorem run_congr (t t' : Tables) (st : Stmt) (hst : ∀ r p, st ≠ .insScanResult r p) (ho : t.noRes = t'.noRes) :
+    (t.run st = none ∧ t'.run st = none) ∨
+    ∃ t1 t1' id, t.run st = some (t1, id) ∧ t'.run st = some (t1', id) ∧ t1.noRes = t1'.noRes ∧
+      t1.scanResult = t.scanResult ∧ t1'.scanResult = t'.scanResult := by
+  rw [run_noRes t st hst, run_noRes t' st hst, ← ho]
+  cases h : t.noRes.run st with
+  | none => left; simp
+  | some x =>
+    right
+    exact ⟨_, _, x.2, rfl, rfl, by simp [Tables.noRes], rfl, rfl⟩
+
+/-- two states of the system that differ only in how far the writer has got -/
+structure TEq (a b : TSys) : Prop where
+  h : a.h = b.h
+  cur : a.cur = b.cur
+  todo : a.todo = b.todo
+  performed : a.performed = b.performed
+  stopped : a.stopped = b.stopped
+  refused : a.refused = b.refused
+  others : a.txn.noRes = b.txn.noRes
+  results : appendResults a.txn.scanResult a.pending = appendResults b.txn.scanResult b.pending
+
+theorem TEq.refl (a : TSys) : TEq a a := ⟨rfl, rfl, rfl, rfl, rfl, rfl, rfl, rfl⟩
+
+theorem TEq.symm {a b : TSys} (h : TEq a b) : TEq b a :=
+  ⟨h.h.symm, h.cur.symm, h.todo.symm, h.performed.symm, h.stopped.symm, h.refused.symm, h.others.symm, h.results.symm⟩
+
+theorem TEq.trans {a b c : TSys} (h1 : TEq a b) (h2 : TEq b c) : TEq a c :=
+  ⟨h1.h.trans h2.h, h1.cur.trans h2.cur, h1.todo.trans h2.todo, h1.performed.trans h2.performed,
+   h1.stopped.trans h2.stopped, h1.refused.trans h2.refused, h1.others.trans h2.others, h1.results.trans h2.results⟩
+
+theorem noRes_eq_iff (t t' : Tables) (h : t.noRes = t'.noRes) (hr : t.scanResult = t'.scanResult) : t = t' := by
+  cases t; cases t'
+  simp only [Tables.noRes, Tables.mk.injEq] at h
+  simp only at hr
+  simp [h.1, h.2.1, h.2.2.1, h.2.2.2.1, h.2.2.2.2.1, h.2.2.2.2.2.2, hr]
+
+theorem TEq.afterDisconnect {a b : TSys} (h : TEq a b) : afterDisconnectT a = afterDisconnectT b := by
+  unfold afterDisconnectT
+  apply noRes_eq_iff
+  · have := h.others
+    simpa [Tables.noRes] using this
+  · exact h.results
+
+theorem Micro.stmt_ne (h : Handler) (m : Micro) (st : Stmt) (hs : m.stmt h = some st) : ∀ r p, st ≠ .insScanResult r p := by
+  intro r p heq
+  subst heq
+  cases m <;> simp [Micro.stmt] at hs
+  all_goals (first | (cases h.metaId <;> simp at hs) | (cases h.discoveryRun <;> simp at hs))
+
+def TSys.stmtEffect (s : TSys) (st? : Option Stmt) : TSys × Option Nat :=
+  match st? with
+  | some st =>
+    match s.txn.run st with
+    | some (t, id) => ({ s with txn := t }, some id)
+    | none => (s, none)
+  | none => (s, none)
+
+theorem dbEffect_eq_stmtEffect (s : TSys) (m : Micro) (h1 : m ≠ .commit) (h2 : ∀ p, m ≠ .enqueue p) :
+    s.dbEffect m = s.stmtEffect (m.stmt s.h) := by
+  cases m <;> first | rfl | exact absurd rfl h1 | exact absurd rfl (h2 _)
+
+theorem TEq.stmtEffect {a b : TSys} (h : TEq a b) (st? : Option Stmt) (hne : ∀ st, st? = some st → ∀ r p, st ≠ .insScanResult r p) :
+    TEq (a.stmtEffect st?).1 (b.stmtEffect st?).1 ∧ (a.stmtEffect st?).2 = (b.stmtEffect st?).2 ∧
+    (a.stmtEffect st?).1.pending = a.pending ∧ (b.stmtEffect st?).1.pending = b.pending := by
+  cases st? with
+  | none => exact ⟨h, rfl, rfl, rfl⟩
+  | some st =>
+    rcases run_congr a.txn b.txn st (hne st rfl) h.others with ⟨h1, h2⟩ | ⟨t1, t1', id, h1, h2, h3, h4, h5⟩
+    · have ea : a.stmtEffect (some st) = (a, none) := by simp only [TSys.stmtEffect, h1]
+      have eb : b.stmtEffect (some st) = (b, none) := by simp only [TSys.stmtEffect, h2]
+      rw [ea, eb]
+      exact ⟨h, rfl, rfl, rfl⟩
+    · have ea : a.stmtEffect (some st) = ({ a with txn := t1 }, some id) := by simp only [TSys.stmtEffect, h1]
+      have eb : b.stmtEffect (some st) = ({ b with txn := t1' }, some id) := by simp only [TSys.stmtEffect, h2]
+      rw [ea, eb]
+      refine ⟨⟨h.h, h.cur, h.todo, h.performed, h.stopped, h.refused, h3, ?_⟩, rfl, rfl, rfl⟩
+      show appendResults t1.scanResult a.pending = appendResults t1'.scanResult b.pending
+      rw [h4, h5]; exact h.results
+
+/-- the database side of a step of the run task acts alike on two such states -/
+theorem TEq.dbEffect {a b : TSys} (h : TEq a b) (m : Micro) :
+    TEq (a.dbEffect m).1 (b.dbEffect m).1 ∧ (a.dbEffect m).2 = (b.dbEffect m).2 ∧
+    (a.dbEffect m).1.pending = a.pending ∧ (b.dbEffect m).1.pending = b.pending := by
+  by_cases h1 : m = .commit
+  · subst h1
+    exact ⟨⟨h.h, h.cur, h.todo, h.performed, h.stopped, h.refused, h.others, h.results⟩, rfl, rfl, rfl⟩
+  · by_cases h2 : ∃ p, m = .enqueue p
+    · obtain ⟨p, hp⟩ := h2
+      subst hp
+      exact ⟨h, rfl, rfl, rfl⟩
+    · have h2' : ∀ p, m ≠ .enqueue p := fun p hp => h2 ⟨p, hp⟩
+      rw [dbEffect_eq_stmtEffect a m h1 h2', dbEffect_eq_stmtEffect b m h1 h2', ← h.h]
+      exact h.stmtEffect _ (fun st hst => Micro.stmt_ne _ _ _ hst)
+
+theorem pending_enqueue (s : TSys) (x : Nat × Nat) (u : Nat) :
+    TSys.pending { s with queue := s.queue ++ [x], unfinished := u } = s.pending ++ [x] := by
+  simp [TSys.pending, List.append_assoc]
+
+/-- close a `TEq` goal field by field from a `TEq` hypothesis -/
+macro "teq_from " h:ident : tactic =>
+  `(tactic| (refine ⟨?_, ?_, ?_, ?_, ?_, ?_, ?_, ?_⟩ <;>
+      first | rfl | exact ($h).h | exact ($h).cur | exact ($h).todo | exact ($h).performed | exact ($h).stopped
+            | exact ($h).refused | exact ($h).others | exact ($h).results
+            | (simp [($h).performed]; done) | (simp [($h).refused]; done) | (simp [($h).h]; done)))
+
+theorem TEq.micro {a b : TSys} (h : TEq a b) (m : Micro) : TEq (a.micro m) (b.micro m) := by
+  by_cases h2 : ∃ p, m = .enqueue p
+  · obtain ⟨p, hp⟩ := h2
+    subst hp
+    have hh := h.h
+    cases hr : a.h.scanRun with
+    | none =>
+      have hrb : b.h.scanRun = none := by rw [← hh]; exact hr
+      simp only [TSys.micro, hr, hrb]
+      teq_from h
+    | some run =>
+      have hrb : b.h.scanRun = some run := by rw [← hh]; exact hr
+      simp only [TSys.micro, hr, hrb]
+      refine ⟨h.h, h.cur, h.todo, h.performed, h.stopped, h.refused, h.others, ?_⟩
+      show appendResults a.txn.scanResult (TSys.pending { a with queue := a.queue ++ [(run, p)], unfinished := a.unfinished + 1 }) =
+        appendResults b.txn.scanResult (TSys.pending { b with queue := b.queue ++ [(run, p)], unfinished := b.unfinished + 1 })
+      rw [pending_enqueue, pending_enqueue, appendResults_append, appendResults_append, h.results]
+  · have h2' : ∀ p, m ≠ .enqueue p := fun p hp => h2 ⟨p, hp⟩
+    obtain ⟨e1, e2, e3, e4⟩ := h.dbEffect m
+    have ha : a.micro m = match a.dbEffect m with
+        | (s', some id) => { s' with h := m.assign s'.h id }
+        | (s', none) => { s' with cur := [], refused := s'.refused + 1 } := by
+      cases m <;> first | rfl | exact absurd rfl (h2' _)
+    have hb : b.micro m = match b.dbEffect m with
+        | (s', some id) => { s' with h := m.assign s'.h id }
+        | (s', none) => { s' with cur := [], refused := s'.refused + 1 } := by
+      cases m <;> first | rfl | exact absurd rfl (h2' _)
+    rw [ha, hb]
+    revert e1 e2 e3 e4
+    generalize a.dbEffect m = ra
+    generalize b.dbEffect m = rb
+    obtain ⟨a', ida⟩ := ra
+    obtain ⟨b', idb⟩ := rb
+    intro e1 e2 e3 e4
+    simp only at e1 e2 e3 e4
+    subst e2
+    cases ida with
+    | none => simp only; teq_from e1
+    | some id => simp only; teq_from e1
+
+/-- a step of the run task (or its cancellation) acts alike on two such states -/
+theorem TEq.runStep {a b : TSys} (h : TEq a b) (c : TChoice) (hc : c.isRunTask = true) : TEq (tstep a c) (tstep b c) := by
+  have hst := h.stopped
+  have hcur := h.cur
+  have htodo := h.todo
+  have hh := h.h
+  cases c with
+  | run =>
+    by_cases hs : a.stopped = true
+    · have hsb : b.stopped = true := by rw [← hst, hs]
+      simp only [tstep, hs, hsb, if_true]
+      exact h
+    · have hsb : ¬ b.stopped = true := by rw [← hst]; exact hs
+      cases hca : a.cur with
+      | cons m ms =>
+        have hcb : b.cur = m :: ms := by rw [← hcur, hca]
+        simp only [tstep, hs, hsb, if_false, hca, hcb]
+        refine TEq.micro ?_ m
+        teq_from h
+      | nil =>
+        have hcb : b.cur = [] := by rw [← hcur, hca]
+        cases hta : a.todo with
+        | nil =>
+          have htb : b.todo = [] := by rw [← htodo, hta]
+          simp only [tstep, hs, hsb, if_false, hca, hcb, hta, htb]
+          exact h
+        | cons op rest =>
+          have htb : b.todo = op :: rest := by rw [← htodo, hta]
+          have hmb : op.micros b.h = op.micros a.h := by rw [hh]
+          cases hm : op.micros a.h with
+          | some ms =>
+            simp only [tstep, hs, hsb, if_false, hca, hcb, hta, htb, hmb, hm]
+            teq_from h
+          | none =>
+            simp only [tstep, hs, hsb, if_false, hca, hcb, hta, htb, hmb, hm]
+            teq_from h
+  | cancel =>
+    by_cases hs : a.stopped = true
+    · have hsb : b.stopped = true := by rw [← hst, hs]
+      simp only [tstep, hs, hsb, if_true]
+      exact h
+    · have hsb : ¬ b.stopped = true := by rw [← hst]; exact hs
+      cases hca : a.cur with
+      | nil =>
+        have hcb : b.cur = [] := by rw [← hcur, hca]
+        simp only [tstep, hs, hsb, if_false, hca, hcb]
+        teq_from h
+      | cons m ms =>
+        have hcb : b.cur = m :: ms := by rw [← hcur, hca]
+        by_cases h2 : ∃ p, m = .enqueue p
+        · obtain ⟨p, hp⟩ := h2
+          subst hp
+          have hm := h.micro (.enqueue p)
+          simp only [tstep, hs, hsb, if_false, hca, hcb]
+          teq_from hm
+        · have h2' : ∀ p, m ≠ .enqueue p := fun p hp => h2 ⟨p, hp⟩
+          obtain ⟨e1, e2, e3, e4⟩ := h.dbEffect m
+          have ea : tstep a .cancel = { (a.dbEffect m).1 with cur := [], todo := [], stopped := true } := by
+            simp only [tstep, hs, if_false, hca]
+            cases m <;> first | rfl | exact absurd rfl (h2' _)
+          have eb : tstep b .cancel = { (b.dbEffect m).1 with cur := [], todo := [], stopped := true } := by
+            simp only [tstep, hsb, if_false, hcb]
+            cases m <;> first | rfl | exact absurd rfl (h2' _)
+          rw [ea, eb]
+          teq_from e1
+  | get => simp [TChoice.isRunTask] at hc
+  | execOk => simp [TChoice.isRunTask] at hc
+  | execFail => simp [TChoice.isRunTask] at hc
+  | commitOk => simp [TChoice.isRunTask] at hc
+  | commitFail => simp [TChoice.isRunTask] at hc
+
+/-- a step of the writer changes nothing that the tables after `disconnect()` depend on -/
+theorem TEq.writerStep {s : TSys} (hi : TInv s) (c : TChoice) (hc : c.isRunTask = false) : TEq (tstep s c) s := by
+  cases c with
+  | run => simp [TChoice.isRunTask] at hc
+  | cancel => simp [TChoice.isRunTask] at hc
+  | get =>
+    simp only [tstep]
+    split
+    · exact TEq.refl s
+    · split
+      · next r q h1 h2 =>
+        refine ⟨rfl, rfl, rfl, rfl, rfl, rfl, rfl, ?_⟩
+        simp [TSys.pending, h1, h2]
+      · exact TEq.refl s
+  | execOk =>
+    simp only [tstep]
+    split
+    · exact TEq.refl s
+    · split
+      · next run p h1 h2 =>
+        have hrun : run ∈ s.txn.scanRunIds := hi.inflight (run, p) h1
+        have hr : s.txn.run (.insScanResult (some run) p) =
+            some ({ s.txn with scanResult := s.txn.scanResult ++ [(nextId s.txn.scanResultIds, run, p)] },
+                  nextId s.txn.scanResultIds) := by
+          simp [Tables.run, hrun]
+        simp only [hr]
+        refine ⟨rfl, rfl, rfl, rfl, rfl, rfl, by simp [Tables.noRes], ?_⟩
+        simp [TSys.pending, h1, h2, appendResults, Tables.scanResultIds]
+      · exact TEq.refl s
+  | execFail =>
+    simp only [tstep]
+    split
+    · next r h1 h2 => exact ⟨rfl, rfl, rfl, rfl, rfl, rfl, rfl, by simp [TSys.pending, h1, h2]⟩
+    · exact TEq.refl s
+  | commitOk =>
+    simp only [tstep]
+    split
+    · exact TEq.refl s
+    · split
+      · next r h1 h2 => exact ⟨rfl, rfl, rfl, rfl, rfl, rfl, rfl, by simp [TSys.pending, h1, h2]⟩
+      · exact TEq.refl s
+  | commitFail =>
+    simp only [tstep]
+    split
+    · next r h1 h2 => exact ⟨rfl, rfl, rfl, rfl, rfl, rfl, rfl, by simp [TSys.pending, h1, h2]⟩
+    · exact TEq.refl s
+
+/-- running any schedule is, for the tables after `disconnect()`, as good as running only the run task's choices of it -/
+theorem TEq.exec {a b : TSys} (h : TEq a b) (ha : TInv a) (sched : List TChoice) :
+    TEq (texec a sched) (texec b (sched.filter TChoice.isRunTask)) := by
+  induction sched generalizing a b with
+  | nil => exact h
+  | cons c cs ih =>
+    cases hc : c.isRunTask with
+    | true =>
+      simp only [List.filter_cons, hc, if_true, texec, List.foldl_cons]
+      exact ih (h.runStep c hc) (ha.step c)
+    | false =>
+      simp only [List.filter_cons, hc, texec, List.foldl_cons]
+      have : TEq (tstep a c) b := (TEq.writerStep ha c hc).trans h
+      simpa [texec] using ih this (ha.step c)
+
 end Gallia.DbTables
